@@ -20,6 +20,19 @@ Definition validate_unit (s : bytes) : bool := rx_match kInstrumentUnitPattern s
 (* Meter::ValidateInstrument (the description is always accepted) *)
 Definition validate_instrument (name unit : bytes) : bool := validate_name name && validate_unit unit.
 
+(* the same two functions as compiled when std::regex is not usable (the #else branches; not part of this build, the
+   driver compiles them separately): size limit first, then name[0] - read even when the view is empty (None) - then the rest *)
+Definition nr_name_char (b : byte) : bool :=
+  isalnum b || Byte.eqb b x2d || Byte.eqb b x5f || Byte.eqb b x2e || Byte.eqb b x2f.
+Definition validate_name_nr (s : bytes) : option bool :=
+  if Nat.ltb kNrNameMaxSize (length s) then Some false
+  else match s with
+       | [] => None
+       | c :: t => Some (isalpha c && forallb nr_name_char t)
+       end.
+Definition validate_unit_nr (s : bytes) : bool :=
+  if Nat.ltb kNrUnitMaxSize (length s) then false else forallb (fun b => b2n b <=? 127) s.
+
 (* ------------------------------------------------------------------------------------------------ Predicates *)
 (* The ECMAScript patterns that are modelled: a sequence of atoms, each optionally followed by '*';
    an atom is a literal [A-Za-z0-9_/-], an escaped dot "\." or the wildcard '.' (any byte but LF and CR). *)
